@@ -44,6 +44,7 @@ class TimedRef:
         self.stale_reads = 0  # operand read that differs from the sequential value (interlock off)
         self.timeout = False
         self.wrong_path_ecall_stalls = 0
+        self.crossing = 0  # accesses that cross a word boundary (a data cache rejects them by design)
 
     def read(self, reg, t):
         """value of reg visible to a decode in cycle t (write-back of cycle t already done)."""
@@ -114,6 +115,8 @@ class TimedRef:
                 self.sched.append({"pc": pc, "IF": IF, "IDf": IDf, "IDl": IDl, "EXf": EXf, "EXl": EXl})
                 return
             WB = EXl + 2
+            if r["mem"] and (r["mem"][1] & 3) + r["mem"][2] > 4:
+                self.crossing += 1
             if r["wr"]:
                 self.writes[r["wr"][0]].append((WB, r["wr"][1]))
             if r["out"] is not None:
